@@ -31,6 +31,7 @@ type SymStr struct {
 	Str  *sym.Term // SMT String term, or nil
 	From int       // byte offset into Str (value is Str[From:])
 	Tag  string    // for opaque strings: a label
+	Line bool      // Str is a line variable constrained only by regular-language memberships
 }
 
 type Struct struct{ F []Value }
